@@ -62,6 +62,17 @@ PLAN = {
         {"engine": "e_api", "config": "miri-sse2", "mode": "miri", "tiers": T, "shards": {"quick": 8, "thorough": 8}},
         {"engine": "e_api", "config": "miri-coresimd", "mode": "miri", "tiers": T, "shards": {"quick": 8, "thorough": 8}},
     ], "not_observed": ["neon", "wasm32", "scalar-math (no hidden lane exists there)"]},
+    "C20": {"runs": [
+        {"engine": "e_api", "config": "assert", "tiers": Q},
+        {"engine": "e_api", "config": "assert-scalar", "tiers": Q},
+        {"engine": "e_api", "config": "sse2", "tiers": Q},
+        {"engine": "e_api", "config": "scalar", "tiers": T},
+    ] + [
+        {"engine": "e_api", "config": c, "mode": "trace", "tiers": t, "shards": {"quick": 1, "thorough": 1}, "args": ["--trace", "{wdir}/trace.{config}.bin"]}
+        for c, t in (("sse2", Q), ("assert", Q), ("scalar", Q), ("assert-scalar", Q))
+    ], "post": [
+        {"name": "tracecmp", "engine": "e_api", "cmp_config": "sse2", "pairs": [["sse2", "assert", "exact"], ["scalar", "assert-scalar", "exact"]]},
+    ]},
     "C18": {"runs": [
         {"engine": "e_api", "config": "sse2", "tiers": Q},
         {"engine": "e_api", "config": "scalar", "tiers": Q},
@@ -85,6 +96,7 @@ for _p in ("C13",):
         _r["shards"] = {"quick": 8, "thorough": 16}
 
 RULES = {
+    "C20": "Programs of 2-12 operations drawn from 46 precondition-carrying operation groups (normalize family, any_orthonormal_*, every rotation constructor, unit-quaternion product / inverse / lerp / slerp / rotate_towards, from_rotation_arc incl. exactly opposite, look_to/look_at, TRS compose -> decompose -> recompose, inverse -> transform, to_euler/from_euler, to_axis_angle/from_axis_angle, clamp_length*, reflect/refract, projection ...) for the f32 and f64 families; every operand comes from typed pools of values produced by glam itself (unit vectors, unit quaternions, rotation matrices, shear-free TRS matrices, affine matrices) or from finite non-degenerate seeds (including tiny vectors whose squared length is still normal). Monitors: no program panics in glam-assert builds; after every step every pooled value is checked against the predicate it will be used under (|len^2 - 1| <= 2e-4, affine row within 1e-6) and the margin consumed is recorded; 24 documented violations panic exactly when the assertions are compiled in; the same programs are traced in builds with and without glam-assert (sse2 and scalar) and every returned word compared bit-for-bit. Events = programs + compared records.",
     "C07": "Each build of the working tree (sse2, scalar-math, +fma,+avx2; core-simd and target-cpu=native in thorough) records the same seeded workload into a trace: every registry entry that involves one of the eight SIMD-backed types (524 entries: inherent functions, operators, conversions, Display/Debug) called on finite inputs, each call re-executed 8 times on inputs moved by up to 64 ulp (conditioning probe), plus random programs of 2-8 operations chained through a typed value pool. An offline comparator walks pairs of traces in lock-step: SIMD vs scalar (and core-simd): |a - b| <= (largest change under the 64-ulp perturbations) + 32 eps x (largest input scalar / output lane of the call) per float word, discrete outcomes (bool / Option / index) equal unless they flip under the perturbations (boundary), Debug/Display text hash equal whenever the values are bit-equal; sse2 vs +fma / native: every word of every record, including the chained programs, bit-for-bit (NaN sign/payload excepted: unspecified in Rust). Events = records compared; distinct = entries.",
     "C08": "Twin execution: every registry entry that takes or returns a Vec3A, Mat3A, Affine3A or BVec3A (261 entries: own methods, operators, Sum/Product, PartialEq, Hash, Display/Debug, From impls, and functions of Quat / Mat4 / Mat3 / Affine3A taking them) is executed on arguments with bit-identical visible lanes whose hidden fourth lane holds each of {0, 1, -1, 3e38, min subnormal, +inf, -inf, quiet NaN, signalling NaN, all-ones} injected through three public routes (Vec3A::from_vec4, a computed register, From<raw register>; masks through comparisons of such vectors), on ordinary and special-value visible lanes; all captured visible outputs (lanes, scalars, bools, Options, strings, hashes, bitmasks) must be bit-identical to the run with the natural hidden lane. Plus random programs of 2-6 such operations chained through a typed value pool so that hidden lanes computed by glam itself feed later operations. Every event is one poisoned execution; distinct = (entry, poison, route, input mode).",
     "C18": "Events: (1) panic monitor - every entry of the generated registry (all 1530 public inherent functions, operator / Neg / Index / PartialEq / Sum / Product / Display / From impls of the float vector, quaternion, matrix, affine and SIMD mask types) called under catch_unwind with each scalar argument slot in turn set to special-value lattice values (zero, -0, subnormal, tiny, huge, +-inf, NaNs) plus random lattice tuples and ordinary values; indices in range and slices long enough, so any panic is undocumented; (2) slice monitor - from_slice / write_to_slice / from_cols_slice / write_cols_to_slice of 29 types with every length 0..N+4 on sentinel windows and exactly sized heap slices: success reads/writes exactly the first N elements, short slices panic and leave the destination bit-identical; (3) Index/IndexMut, col/row/col_mut, test/set with indices 0..7 and usize::MAX; (4) pointer-cast conversions of the SIMD types; the same workload under AddressSanitizer (exact-size heap buffers), Miri (one call of each of the SIMD-type entries plus slices) and, in thorough, valgrind memcheck on the optimised binary. distinct = distinct (entry, hot slot, round class).",
